@@ -92,6 +92,9 @@ class C03(Profile):
              "create_result", "lookup_failed", "lookup_wrong_entity", "reopen_failed")
     reopen_introspect = False
     never_off = ("restart", "delete")
+    # a quarter of the runs starts from the link-rich state (members of one source subtree linked into
+    # the same lists): link lists are containers too, "also after deletions"
+    rich_start_rate = 0.25
 
     def owns(self, oracle, site, cls):
         if oracle == "unexpected_error":
